@@ -6,6 +6,7 @@ byte limit in any view, and never writes more than that many bytes of it to disk
 -/
 import Scalibr.Model.OverlayImage
 import Scalibr.Proofs.OverlayLoad
+import Scalibr.Proofs.OverlayImage
 namespace Scalibr.Overlay
 
 /-- every regular-file node is below the limit -/
@@ -225,5 +226,71 @@ theorem C10_disk_bytes (limit : Nat) (d d' : Disk) (pe : PEntry) (hd : DiskOK li
         · simp at hb; subst hb; simp; omega
         · exact hd1 x hx bs hb
   · simp at h; subst h; exact hd
+
+/-! ### lifted to a whole load (`loadImage`: what the driver runs) -/
+
+theorem foldlM_processEntry_disk (limit i : Nat) : ∀ (l : List PEntry) (st st' : LoadSt),
+    l.foldlM (processEntry limit i) st = some st' → DiskOK limit st.disk → DiskOK limit st'.disk := by
+  intro l
+  induction l with
+  | nil => intro st st' h hd; simp [List.foldlM] at h; subst h; exact hd
+  | cons pe l ih =>
+    intro st st' h hd
+    rw [List.foldlM_cons] at h
+    cases h1 : processEntry limit i st pe with
+    | none => rw [h1] at h; simp at h
+    | some st1 =>
+      rw [h1] at h
+      simp only [Option.bind_eq_bind, Option.bind_some] at h
+      apply ih st1 st' h
+      rcases processEntry_disk h1 with he | hs
+      · rw [he]; exact hd
+      · exact C10_disk_bytes limit _ _ pe hd hs
+
+theorem loadLoop_disks (limit : Nat) (layers : List (List PEntry)) : ∀ (i : Nat) (chains : List Tree) (disks : List (Nat × Disk))
+    (c : List Tree) (ds : List (Nat × Disk)), loadLoop limit layers i chains disks = some (c, ds) →
+    (∀ x ∈ disks, DiskOK limit x.2) → ∀ x ∈ ds, DiskOK limit x.2 := by
+  intro i
+  induction i with
+  | zero => intro chains disks c ds h hd; simp [loadLoop] at h; rw [← h.2]; exact hd
+  | succ i ih =>
+    intro chains disks c ds h hd
+    unfold loadLoop at h
+    cases hp : processLayer limit i chains (layers.getD i []) with
+    | none => rw [hp] at h; cases h
+    | some r =>
+      obtain ⟨c1, d1⟩ := r
+      rw [hp] at h
+      simp only at h
+      apply ih _ _ _ _ h
+      intro x hx
+      rcases List.mem_cons.mp hx with rfl | hx
+      · unfold processLayer at hp
+        simp only [Option.map_eq_some_iff] at hp
+        obtain ⟨st', hf, heq⟩ := hp
+        simp only [Prod.mk.injEq] at heq
+        rw [← heq.2]
+        exact foldlM_processEntry_disk limit i _ _ st' hf (fun y hy => by cases hy)
+      · exact hd x hx
+
+/-- **C10_layer_bytes (disk), whole load.** Whatever the tars contain, after a successful `FromV1Image` no file below
+any layer's extraction directory holds more than `MaxFileBytes` bytes. -/
+theorem C10_disk_bytes_load (limit : Nat) (layers : List (List PEntry)) (c : List Tree) (ds : List (Nat × Disk))
+    (h : loadImage limit layers = some (c, ds)) : ∀ x ∈ ds, DiskOK limit x.2 :=
+  loadLoop_disks limit layers _ _ _ _ _ h (fun x hx => by cases hx)
+
+/-- **C10_layer_bytes, whole load.** For raw tar headers, `MaxFileBytes = limit`: every chain layer `loadImage` returns,
+and the final one after `removeUnnecessaryFileNodes`, is free of file nodes of size ≥ `limit`.  (`limit = 0` cannot
+occur: `validateConfig` rejects `MaxFileBytes <= 0`; the statement then says "no file nodes", which is what
+`classify` does with `size ≥ 0`.) -/
+theorem C10_layer_bytes_image (limit : Nat) (raws : List (List RawEntry)) (c : List Tree) (ds : List (Nat × Disk))
+    (h : loadImage limit (raws.map (normLayer limit)) = some (c, ds)) (j : Nat) (hj : j < raws.length)
+    (U : List Path) (req : Path → Bool) (depth : Nat) :
+    SizeOK limit (c.getD j emptyTree) ∧ SizeOK limit (pruneFinal U req depth (c.getD j emptyTree)) := by
+  have hc := loadImage_chains limit _ c ds h
+  have : SizeOK limit (c.getD j emptyTree) := by
+    rw [hc, List.map_map]
+    exact C10_layer_bytes_loader limit raws j hj
+  exact ⟨this, C10_layer_bytes_final limit U req depth _ this⟩
 
 end Scalibr.Overlay
